@@ -6,8 +6,8 @@ FLAGS = ["-I@BUILD@/shim_small", "-DVERIF_KINDFOLD=1", "-I@BUILD@/C01/vm"]
 VMDIR = os.path.join(core.BUILD, "C01", "vm")
 
 # opcode -> (nargs, stack effect on completion, inline operand words, argument classes to try per slot)
-IMM, MIN, PAIR, VEC, BYT, STR, FIX, FLO, CHR, CUR, IPAIR, IVEC, IBYT, ISTR = range(14)
-ANY = [IMM, MIN]
+IMM, MIN, PAIR, VEC, BYT, STR, FIX, FLO, CHR, CUR, IPAIR, IVEC, IBYT, ISTR, ANYV = range(15)
+ANY = [ANYV]      # one class: an arbitrary immediate or a minimum-size object of any non-accepted tag
 OPS = {
  "CAR": (1, 0, 0, [ANY + [PAIR]]),
  "CDR": (1, 0, 0, [ANY + [PAIR]]),
